@@ -332,6 +332,44 @@ def bitcoin_bounded(rep, tier):
         return '1' * (len(raw) - len(raw.lstrip(b'\0'))) + out
     for _ in range(200 if tier == 'quick' else 20000):
         seeds.append(b58(bytes([rnd.choice([0, 5])]) + bytes(rnd.randrange(256) for _ in range(20))))
+    # structured: hashes with k leading zero bytes (each encodes as one '1': the shortest and longest addresses), extreme hashes
+    for k in range(0, 21):
+        for ver in (0, 5):
+            seeds.append(b58(bytes([ver]) + b'\0' * k + bytes(rnd.randrange(1, 256) for _ in range(20 - k))))
+    seeds += [b58(bytes([ver]) + bytes([fill]) * 20) for ver in (0, 5) for fill in (0, 1, 255)]
+    # the shortest encodings (26/27 characters): 19 zero bytes and every value of the last byte
+    seeds += [b58(bytes([0]) + b'\0' * 19 + bytes([b])) for b in range(256)]
+
+    # bech32 (BIP-173) addresses built here: witness version 0 with 20- and 32-byte programs, other versions and sizes
+    CH = 'qpzry9x8gf2tvdw0s3jn54khce6mua7l'
+
+    def polymod(values):
+        chk = 1
+        for v in values:
+            top = chk >> 25
+            chk = (chk & 0x1ffffff) << 5 ^ v
+            for i, g in enumerate((0x3b6a57b2, 0x26508e6d, 0x1ea119fa, 0x3d4233dd, 0x2a1462b3)):
+                chk ^= g if (top >> i) & 1 else 0
+        return chk
+
+    def bech32(witver, prog):
+        acc = bits = 0
+        data = [witver]
+        for b in prog:
+            acc = (acc << 8) | b
+            bits += 8
+            while bits >= 5:
+                bits -= 5
+                data.append((acc >> bits) & 31)
+        if bits:
+            data.append((acc << (5 - bits)) & 31)
+        hrp = [ord(c) >> 5 for c in 'bc'] + [0] + [ord(c) & 31 for c in 'bc']
+        pm = polymod(hrp + data + [0] * 6) ^ 1
+        return 'bc1' + ''.join(CH[d] for d in data + [(pm >> 5 * (5 - i)) & 31 for i in range(6)])
+    for witver, size in ((0, 20), (0, 32), (0, 21), (0, 2), (0, 40), (1, 32), (1, 2), (16, 40), (16, 2), (2, 20), (0, 41), (17, 20)):
+        for _ in range(2 if tier == 'quick' else 50):
+            seeds.append(bech32(witver, bytes(rnd.randrange(256) for _ in range(size))))
+            seeds.append(bech32(witver, bytes(rnd.randrange(256) for _ in range(size))).upper())
     bad = None
     for s in seeds:
         cands = [s]
